@@ -99,11 +99,30 @@ def dump (s : Sys) : String :=
   "R" ++ String.join (w.reg.map svcS) ++ " | F" ++ String.join (s.file.map svcS) ++
     s!" | OS inst=[{",".intercalate inst}] procs=[{",".intercalate procs}] dirs=[{",".intercalate dirs}] np={w.os.nextPid} npt={w.os.nextPort}"
 
+/-- `cmd <op line>`: one whole `antctl` invocation (add / start / stop / remove / upgrade / refresh-full = status). -/
 def parseSOp (ws : List String) : Option SOp :=
-  if ws = ["reload"] then some .reload else (parseOp ws).map .op
+  if ws = ["reload"] then some .reload else
+  match ws with
+  | "cmd" :: rest =>
+    match parseOp rest with
+    | some (.add c np mp rp m v f) => some (.cmd (.add c np mp rp m v f))
+    | some (.start i ct f) => some (.cmd (.start i ct f))
+    | some (.stop i f) => some (.cmd (.stop i f))
+    | some (.remove i k f) => some (.cmd (.remove i k f))
+    | some (.upgrade i fo st v ct f) => some (.cmd (.upgrade i fo st v ct f))
+    | some (.refreshFull fl f) => some (.cmd (.refreshFull fl f))
+    | _ => none
+  | _ => (parseOp ws).map .op
+
+/-- `probe-moved-registry`: save the registry at its place (path 0), copy the file to path 1, load it from there. -/
+def probeMoved (s : Sys) : String :=
+  match loadReg (copyFile (saveReg [] ⟨0, s.w.reg⟩) 0 1) 1 with
+  | some r => "loaded-from=moved saves-to=" ++ (if r.savePath = 1 then "moved" else if r.savePath = 0 then "original" else "elsewhere")
+  | none => "err:load"
 
 def step (s : Sys) (ws : List String) : Sys × String :=
   if ws = ["reset"] then (Sys.init, "ok") else
+  if ws = ["probe-moved-registry"] then (s, probeMoved s) else
   match parseSOp ws with
   | none => (s, s!"bad-op calls=0 | {dump s}")
   | some op =>
